@@ -161,7 +161,7 @@ the deterministic first waits, `dec`, and a new attempt, at most `CONN_RETRIES`
 times. A `fail` that would draw a random wait (third consecutive failure) makes
 the rest of the case `nondet`.
 
-  req <c> <cookie|-> <hold|close>      -> `some id@addr` | `none`
+  req <c> <cookie|-> <hold|close|bclose>   -> `some id@addr` | `none`   (bclose: the backend closes, same count effect as close)
   drop <k>                             close the k-th held client connection
   wait                                 one back-off second passes
 -/
@@ -237,7 +237,7 @@ def stepLine (d : DState) (line : String) : DState × List String :=
     if d.nondet then (d, ["nondet"]) else
     match ws with
     | ["req", c, ck, h] =>
-      match c.toNat?, natOpt ck, (if h = "hold" then some true else if h = "close" then some false else none) with
+      match c.toNat?, natOpt ck, (if h = "hold" then some true else if h = "close" || h = "bclose" then some false else none) with
       | some c, some ck, some hold =>
         let (s', res, keep, nd) := reqLoop c ck hold connRetries d.s
         let held := match keep with
